@@ -123,6 +123,14 @@ CLAIMED = {
             "Floats: try_from_secs_f64 must be within 1ns and as_secs_f64 within 2 ulp of the exact value; the single float "
             "2^63 may saturate (the existing suite pins that). mul_f64/div_f64 and the f32 variants are not covered.",
             "TLA+ exact-arithmetic spec evaluated by TLC over implementation traces", "DESIGN.md §5 C12"),
+    "C09": ("model_checking",
+            "Rfc3339.tla is an independent reader of RFC 3339 / RFC 9557 text written in TLA+ over byte values; TLC runs it "
+            "on every printed Timestamp, Date, Time, DateTime and Zoned (all printer options; instants around every "
+            "transition, folds, sub-minute LMT periods) and checks that the decoded value is the original, that the civil "
+            "time + zone + printed offset determine the instant, and that jiff's own re-parse returns an equal value.",
+            "Trusted: TLC, harness, independent zone reader. Folds whose two offsets round to the same minute (a few "
+            "seconds wide) cannot be told apart by any RFC 9557 text and are skipped.",
+            "TLA+ text reader + zone semantics evaluated by TLC over implementation traces", "DESIGN.md §5 C09"),
 }
 
 PENDING_REASON = "check not built yet in this round (planned, see DESIGN.md §5); no claim is made"
